@@ -44,6 +44,10 @@ CHECKS = {
    technique="deterministic simulation: seeded evaluation histories on shared Expression objects (repeat, other context, after failing evaluations, after constant redefinition, through array-length parses and enum/#define embedding) judged step by step by a reference precedence-climbing evaluator",
    text="Seeded search over (pools of well-formed expression texts from the statement's grammar, constants, histories of 4-24 ops on the same Expression objects). Every evaluation is compared with a reference evaluator (unbounded ints, C precedence, left associativity, context-then-constants lookup; itself cross-checked against Python's parser) and with a fresh Expression object; evaluations that must fail (unbound identifier, division by zero) are the injected faults and must raise and leave no trace. The history clause is decided by the search; single-evaluation precedence rides on the per-step oracle and is sampled, not enumerated.",
    note="Trusts: the reference evaluator; unspecified cases (negative operands of / and %, negative or >256-bit shifts, magnitudes above 2**512) are compared only reused-vs-fresh; lengths foldable at load time are not re-evaluated after constant redefinition."),
+ "C05": dict(engine="E-CFG", cat="exploration", ref="4.1",
+   technique="deterministic simulation: seeded reconfiguration histories (endianness switches at arbitrary points between parses/dumps of scalars, arrays and pre-loaded compiled/interpreted structures) judged by reference codecs under the model's current endianness; truncated inputs as faults",
+   text="Seeded search over (1-2 cstruct objects, flat packed structures loaded before the history as compiled and interpreted twins, histories of 10-40 ops with endianness switches). The model holds only the current endianness per object; every parse must give the reference value and every dump the reference bytes (two's complement / IEEE-754 / raw / UTF-16 / minimal LEB128 / bit-field unit packing), for all 14 integer types, their aliases, floats, char, wchar, LEB128, arrays created before and after switches, and both structure readers. The reconfiguration clause is decided by the search; the codec clause rides on the per-step oracle.",
+   note="Trusts: reference codecs (int.from_bytes/to_bytes, struct, hand-written LEB128); alias meanings written down in the harness; @ and = excluded; no NaN payloads; packed layout only."),
 }
 PENDING = {'C05': 'check not built yet in this revision (planned engine, DESIGN 4); not claimed until its check exists', 'C09': 'check not built yet in this revision (planned engine, DESIGN 4); not claimed until its check exists', 'C10': 'check not built yet in this revision (planned engine, DESIGN 4); not claimed until its check exists', 'C11': 'check not built yet in this revision (planned engine, DESIGN 4); not claimed until its check exists', 'C13': 'check not built yet in this revision (planned engine, DESIGN 4); not claimed until its check exists', 'C14': 'check not built yet in this revision (planned engine, DESIGN 4); not claimed until its check exists', 'C15': 'check not built yet in this revision (planned engine, DESIGN 4); not claimed until its check exists', 'C16': 'check not built yet in this revision (planned engine, DESIGN 4); not claimed until its check exists', 'C17': 'check not built yet in this revision (planned engine, DESIGN 4); not claimed until its check exists', 'C18': 'check not built yet in this revision (planned engine, DESIGN 4); not claimed until its check exists'}
 
